@@ -8,6 +8,8 @@ import WpModel.Model.PdfZoom
 import WpModel.Model.ImageCache
 import WpModel.Model.WriteSinks
 import WpModel.Model.RenderState
+import WpModel.Model.DiskCache
+import WpModel.Model.WriteState
 
 namespace Wp.Drive.C19
 open Wp
@@ -245,6 +247,17 @@ def handleImages (cmd : String) (args : List Sx) : Option String :=
     pure (";".intercalate values ++ " | keys " ++ ";".intercalate entries
       ++ " | fetched " ++ ";".intercalate fetched)
   | "imgkey", [u, o] => do pure (keyStr (← u.atom?) (← orientation? o))
+  | "diskops", ops => do
+    -- `(set k b n)` bytes number n, `(set k o n)` an object, `(set k none)`, `(get k)`, `(has k)`
+    let op? : Sx → Option Wp.DiskCache.Op := fun x => match x with
+      | .list [.atom "set", k, .atom "b", n] => do pure (.set (← k.atom?) (.bytes (.orig (← n.nat?))))
+      | .list [.atom "set", k, .atom "o", n] => do pure (.set (← k.atom?) (.image (some (.svg "o" (← n.nat?)))))
+      | .list [.atom "set", k, .atom "none"] => do pure (.set (← k.atom?) (.image none))
+      | .list [.atom "get", k] => do pure (.get (← k.atom?))
+      | .list [.atom "has", k] => do pure (.has (← k.atom?))
+      | _ => none
+    let ops ← allSome op? ops
+    pure (" ".intercalate (Wp.DiskCache.runDisk Wp.DiskCache.empty ops))
   | _, _ => none
 
 end images
@@ -356,7 +369,43 @@ def handleControl (cmd : String) (args : List Sx) : Option String :=
 
 end control
 
+/-! ### state left behind by a write -/
+section writestate
+open Wp.WriteState Wp.CopyPages
+
+def boxLink? : Sx → Option BoxLink
+  | .list [b, k, t] => do pure ⟨← b.nat?, ← k.atom?.bind LinkKind.ofString?, ← t.atom?⟩
+  | _ => none
+
+/-- `writes ((name…) (link…)) …`: successive `write_pdf` calls (numbered from 1) over boxes that persist; per write the
+tagged boxes `box:pdf`.
+`xobjects W H (w h)|none …`: successive `get_x_object` calls on one `RasterImage`: `W,H,generation,dataW,dataH`. -/
+def handleWriteState (cmd : String) (args : List Sx) : Option String :=
+  match cmd, args with
+  | "writes", ws => do
+    let parsed ← allSome (fun w => match w with
+      | Sx.list [.list names, .list links] => do
+        pure ((← allSome Sx.atom? names), (← allSome boxLink? links))
+      | _ => none) ws
+    let step := fun (acc : List String × Annots × Nat) (w : List String × List BoxLink) =>
+      let r := write acc.2.2 w.1 w.2 acc.2.1
+      (acc.1 ++ [",".intercalate (r.1.map (fun t => toString t.1 ++ ":" ++ toString t.2))], r.2, acc.2.2 + 1)
+    let out := parsed.foldl step ([], [], 1)
+    pure (" | ".intercalate out.1)
+  | "xobjects", w :: h :: targets => do
+    let target? : Sx → Option (Option (Nat × Nat)) := fun t => match t with
+      | .atom "none" => some none
+      | .list [a, b] => do pure (some (← a.nat?, ← b.nat?))
+      | _ => none
+    let ts ← allSome target? targets
+    let xs := getXObjects (fresh (← w.nat?) (← h.nat?)) ts
+    pure (" ".intercalate (xs.map (fun x => s!"{x.width},{x.height},{x.data.generation},{x.data.width},{x.data.height}")))
+  | _, _ => none
+
+end writestate
+
 def handle (cmd : String) (args : List Sx) : Option String :=
-  (handlePages cmd args).orElse fun _ => (handleImages cmd args).orElse fun _ => handleControl cmd args
+  (handlePages cmd args).orElse fun _ => (handleImages cmd args).orElse fun _ =>
+    (handleControl cmd args).orElse fun _ => handleWriteState cmd args
 
 end Wp.Drive.C19
